@@ -5,6 +5,10 @@ V = os.path.dirname(os.path.dirname(os.path.abspath(__file__)))
 ids = [json.loads(l)["id"] for l in open(os.path.join(V, "properties.jsonl"))]
 
 CHECKS = {
+ "C07": dict(cat="exploration", design="§4 C07",
+   technique="property-based testing: Hypothesis-generated closure scenes + call/assignment histories against a reference interpreter with explicit cells",
+   text="Random scenes (module variables; factories whose locals are captured singly, shared by two closures in a list, or two levels deep; reader/setter/incrementer/shadowing/looping bodies; a higher-order caller that owns locals with the same names as captured variables; factory locals shadowing module variables) are driven by histories of up to 12 steps (instantiate, call directly / via alias / via list element / via higher-order function / inside a loop, owner assignment, is_closure) with the observable state printed after every step; stdout must equal the reference interpreter's. Exploration of scenes and histories, not exhaustive.",
+   note="Reference interpreter (lexical environments, cells) trusted; is_closure() modelled as 'has free variables'."),
  "C12": dict(cat="exploration", design="§4 C12",
    technique="property-based testing: Hypothesis-generated optional-handling programs against a reference interpreter, with a position oracle for failing `get`",
    text="Random programs use == nil, get, `(x) or y` (logging fallbacks make laziness observable), `a ?= e` in statement/if/while position over optional int/str values from variables, parameters, function results, built-in results (wrapped present values) and list elements, at module level, in nested blocks and inside functions, with nil and present operands. stdout must equal the reference interpreter's; a `get` of nil must stop the run with exit status 1, the `unwrap of nil` message and a file:line:col inside that get expression. Exploration of program space; optional class-typed fields are not generated.",
